@@ -18,6 +18,7 @@ Record inst := mkInst {
   i_go : civil; i_go_dim : Z; i_go_in : bool }.
 
 Record sysflush := mkFlush {
+  f_gid : nat;                    (* which aggregation group flushed (each has its own marker entry) *)
   f_now : Z; f_tzt : list (string * Z); f_notified : bool; f_by : list string; f_muted : bool }.
 
 Inductive which_stage := StActive | StMute | StBoth.
@@ -30,6 +31,12 @@ Inductive case :=
 | CMutes (m : intervals) (tzt : list (string * Z)) (names : list string) (now : Z) (out : res (bool * list string))
 | CStage (w : which_stage) (m : intervals) (tzt : list (string * Z)) (x : sctx) (marker0 : option (list string))
          (pass : bool) (err : option string) (muted_by : list string) (is_muted : bool)
+(* ONE long-lived Intervener asked a sequence of questions (names, instant): Mutes is a pure function of the
+   instant, so the model answers each element on its own *)
+| CMutesSeq (m : intervals) (qs : list (list string * Z * list (string * Z) * res (bool * list string)))
+(* ONE long-lived stage object + Intervener + marker, Exec'd at a sequence of instants; marker threaded *)
+| CStageSeq (w : which_stage) (m : intervals) (x : sctx) (marker0 : option (list string))
+            (steps : list (Z * list (string * Z) * (bool * option string * (list string * bool))))
 | CCfg (defined root_used : list string) (routes_used : list (list string)) (accepted : bool)
 (* whole instance: the flushes of one group, in order; the marker is threaded from flush to flush *)
 | CSys (m : intervals) (mute active : list string) (fl : list sysflush).
@@ -64,13 +71,42 @@ Definition stage_model (w : which_stage) (m : intervals) (tzt : list (string * Z
 (* the dispatcher puts route id, group key, the route's two name lists and the tick instant into the context *)
 Definition sys_ctx (mute active : list string) (now : Z) : sctx :=
   mkCtx (Some "route") (Some "group") (Some mute) (Some active) (Some now).
-Fixpoint sys_model (m : intervals) (mute active : list string) (marker : option (list string))
+Definition upd (f : nat -> option (list string)) (g : nat) (v : option (list string)) : nat -> option (list string) :=
+  fun k => if Nat.eqb k g then v else f k.
+Fixpoint sys_model (m : intervals) (mute active : list string) (markers : nat -> option (list string))
   (fl : list sysflush) : list (bool * option string * (list string * bool)) :=
   match fl with
   | [] => []
   | f :: r =>
-      let '(p, e, mk) := time_stages (tz_table (f_tzt f)) m (sys_ctx mute active (f_now f)) marker in
-      (p, e, marker_muted mk) :: sys_model m mute active mk r
+      let '(p, e, mk) := time_stages (tz_table (f_tzt f)) m (sys_ctx mute active (f_now f)) (markers (f_gid f)) in
+      (p, e, marker_muted mk) :: sys_model m mute active (upd markers (f_gid f) mk) r
+  end.
+
+Definition with_now (x : sctx) (now : Z) : sctx :=
+  mkCtx (x_route x) (x_gkey x) (x_mute x) (x_active x) (Some now).
+(* one Exec: observable outcome and the marker value afterwards *)
+Definition stage_step (w : which_stage) (m : intervals) (tzt : list (string * Z)) (x : sctx)
+  (mk : option (list string)) : bool * option string * option (list string) :=
+  let tz := tz_table tzt in
+  match w with
+  | StActive => let r := time_active_stage tz m x in (s_pass r, s_err r, apply_set mk (s_set r))
+  | StMute => let r := time_mute_stage tz m x in (s_pass r, s_err r, apply_set mk (s_set r))
+  | StBoth => time_stages tz m x mk
+  end.
+Fixpoint stage_seq_model (w : which_stage) (m : intervals) (x : sctx) (mk : option (list string))
+  (steps : list (Z * list (string * Z))) : list (bool * option string * (list string * bool)) :=
+  match steps with
+  | [] => []
+  | (now, tzt) :: r =>
+      let '(p, e, mk') := stage_step w m tzt (with_now x now) mk in
+      (p, e, marker_muted mk') :: stage_seq_model w m x mk' r
+  end.
+Fixpoint stage_seq_prop (w : which_stage) (m : intervals) (x : sctx) (mk : option (list string))
+  (steps : list (Z * list (string * Z))) (ok : sctx -> list (string * Z) -> option (list string) -> bool) : bool :=
+  match steps with
+  | [] => true
+  | (now, tzt) :: r =>
+      ok (with_now x now) tzt mk && stage_seq_prop w m x (snd (stage_step w m tzt (with_now x now) mk)) r ok
   end.
 
 Inductive shown :=
@@ -78,6 +114,7 @@ Inductive shown :=
 | ShZ (z : Z) | ShR (o : option rng) | ShM (o : res (bool * list string))
 | ShS (o : bool * option string * (list string * bool))
 | ShB (b : bool)
+| ShMs (l : list (res (bool * list string)))
 | ShSys (l : list (bool * option string * (list string * bool))).
 
 Definition show_case (c : case) : shown :=
@@ -88,8 +125,10 @@ Definition show_case (c : case) : shown :=
   | CParseRange k s _ => ShR (parse_range k s)
   | CMutes m tzt names now _ => ShM (mutes (tz_table tzt) m names now)
   | CStage w m tzt x mk0 _ _ _ _ => ShS (stage_model w m tzt x mk0)
+  | CMutesSeq m qs => ShMs (map (fun '(names, now, tzt, _) => mutes (tz_table tzt) m names now) qs)
+  | CStageSeq w m x mk0 steps => ShSys (stage_seq_model w m x mk0 (map fst steps))
   | CCfg d ru us _ => ShB (cfg_names_ok d ru us)
-  | CSys m mute active fl => ShSys (sys_model m mute active None fl)
+  | CSys m mute active fl => ShSys (sys_model m mute active (fun _ => None) fl)
   end.
 
 Global Instance res_eq_dec {A} `{EqDecision A} : EqDecision (res A). Proof. solve_decision. Defined.
@@ -103,9 +142,11 @@ Definition check_case (c : case) : bool :=
   | CParseRange k s out => beq (parse_range k s) out
   | CMutes m tzt names now out => beq (mutes (tz_table tzt) m names now) out
   | CStage w m tzt x mk0 pass err by_ ism => beq (stage_model w m tzt x mk0) (pass, err, (by_, ism))
+  | CMutesSeq m qs => forallb (fun '(names, now, tzt, out) => beq (mutes (tz_table tzt) m names now) out) qs
+  | CStageSeq w m x mk0 steps => beq (stage_seq_model w m x mk0 (map fst steps)) (map snd steps)
   | CCfg d ru us acc => beq (cfg_names_ok d ru us) acc
   | CSys m mute active fl =>
-      beq (sys_model m mute active None fl) (map (fun f => (f_notified f, None, (f_by f, f_muted f))) fl)
+      beq (sys_model m mute active (fun _ => None) fl) (map (fun f => (f_notified f, None, (f_by f, f_muted f))) fl)
   end.
 
 (* calendar sanity of the model's own fields: a valid date that converts back to the same day, weekday in 0..6 *)
@@ -150,6 +191,15 @@ Definition prop_case (c : case) : bool :=
       end
   | CStage StBoth m tzt x mk0 _ _ _ _ => gating_ok m tzt x mk0
   | CStage _ _ _ _ _ _ _ _ _ => true
+  | CMutesSeq m qs =>
+      forallb (fun '(names, now, tzt, _) =>
+        match mutes (tz_table tzt) m names now with
+        | Ok (b, l) => beq b (negb (beq l [])) && forallb (fun n => bool_decide (n ∈ names)) l
+        | _ => true
+        end) qs
+  | CStageSeq StBoth m x mk0 steps =>
+      stage_seq_prop StBoth m x mk0 (map fst steps) (fun x' tzt mk => gating_ok m tzt x' mk)
+  | CStageSeq _ _ _ _ _ => true
   | CCfg d ru us _ =>
       negb (cfg_names_ok d ru us) || forallb (forallb (fun n => bool_decide (n ∈ d))) us
   | CSys m mute active fl =>
